@@ -127,6 +127,28 @@ CLAIMED = {
         "contract-based deductive verification: AST symbolic execution of the real functions to VCs (z3/cvc5) with assumed contracts for the stdlib types; ground case split for the Gregorian identification",
         "DESIGN.md §4 C15",
     ),
+
+    "C17": (
+        "proof",
+        "The real format and parse actions that the pattern builder produces for each built-in ISO / round-trip pattern (LocalDatePattern.iso, LocalTimePattern.general_iso/extended_iso/long_extended_iso, LocalDateTimePattern.general_iso/extended_iso/bcl_round_trip/full_roundtrip_without_calendar, InstantPattern.general/extended_iso, OffsetPattern.general_invariant(_with_z)) are executed symbolically on symbolic values with character-level symbolic strings: the produced text equals the ISO-8601 extended-format spec character by character (fixed widths, zero padding, truncating fractions without trailing zeros or exactly nine digits, 'Z' on instants, shortest offset form), and parse(format(v)) == v, for every value of the type. The digit renderers/scanners they are built from are verified separately for all integers / all texts. Stand-in (bounded): the same patterns against datetime.isoformat()/fromisoformat().",
+        "Trusted: A1-A4, A10 (Python string semantics as modelled), CAL axioms with the Gregorian facts discharged as ground obligations; my reading of ISO-8601 in the spec-text functions (cross-examined by the stdlib differential stand-in). InstantPattern.extended_iso is verified in the thorough tier only (about 15 CPU-minutes); the quick tier covers it through LocalDateTimePattern.extended_iso and InstantPattern.general. Years 0..9999 for the format specs (negative years: date pattern only).",
+        "contract-based deductive verification: symbolic execution of the real pattern actions over symbolic values and symbolic-character strings to VCs (z3/cvc5), with proved lemmas",
+        "DESIGN.md §4 C17",
+    ),
+    "C07": (
+        "other",
+        "Deductive, for all values: parse(format(v)) == v (to the resolution of the pattern's fields) for the built-in patterns of C17 and for a stated finite family of custom patterns (10 LocalTime, 8 LocalDate, 6 Offset pattern texts incl. quoted/escaped literals, padded/unpadded numerics, f/F fractions, 12-hour clock with am/pm, text months and day names), plus re-format idempotence on ANY successfully parsed text of given lengths for three delimited patterns; all rendering/scanning primitives for all integers/texts. NOT for all pattern texts and only the invariant culture (no ICU in this sandbox): the rest of the quantifier is covered by a bounded stand-in (generated patterns x values), hence level other.",
+        "Trusted: A1-A4, A10, CAL axioms. Known finding: texts denoting negative zero re-format without the sign. Era fields, embedded patterns, calendars other than ISO, Duration patterns (path explosion in the total-field scanner) and every culture but the invariant one are covered by the stand-in only. Four genuine defects were repaired with fix: commits.",
+        "contract-based deductive verification per pattern text (symbolic values, symbolic-character strings) + bounded generated-pattern stand-in",
+        "DESIGN.md §4 C07",
+    ),
+    "C08": (
+        "other",
+        "Deductive: for three built-in patterns and one custom pattern, parse of ANY text of the stated lengths (every character unknown, any code point) returns a result object and never raises, and a success carries a valid value; the scanners (_parse_digits, _parse_fraction, _parse_int64) never raise on any text of lengths 0..5. Bounded in text length and in the set of patterns; pattern creation (only InvalidPatternError) is covered by the stand-in only (generated and mutated pattern texts, malformed ones included; valid, mutated, truncated, out-of-range, non-ASCII and NUL-containing inputs).",
+        "Trusted: A1-A4, A10. Three genuine defects (offset hours 19-23 raising, year -9999 raising / invalid value, double-quoted literal raising NotImplementedError) were repaired with fix: commits.",
+        "contract-based deductive verification over texts of unknown characters (bounded length) + bounded fuzz stand-in",
+        "DESIGN.md §4 C08",
+    ),
 }
 
 NOT_YET = {}
